@@ -123,6 +123,7 @@ class LoopContract:
 
     def run_for(self, I, st, fr, seq):
         ctx = I.ctx
+        self.st = st               # the loop's AST node: invariants name the loop's variables by ROLE (see helpers below)
         entry = self.snapshot(I, fr, seq)
         n = seq.n if not isinstance(seq.n, int) else z3.IntVal(seq.n)
         for label, t in self.inv(I, fr, entry, seq, z3.IntVal(0)):
@@ -154,6 +155,41 @@ class LoopContract:
                     I.assign(st.target, seq.elem(n - 1), fr)
             I.exec_block(st.orelse, fr)
             return
+
+
+# ---- naming loop variables by role, not by spelling (an invariant must survive a renamed local)
+
+def store_target(st):
+    """the local container a loop fills: the unique name X with `X[...] = ...` in the loop body"""
+    import ast
+    names = {t.value.id for n in ast.walk(st) if isinstance(n, ast.Assign) for t in n.targets
+             if isinstance(t, ast.Subscript) and isinstance(t.value, ast.Name)}
+    if len(names) != 1:
+        raise EngineLimit("loop does not fill exactly one local container by subscript assignment")
+    return names.pop()
+
+
+def append_receiver(st):
+    """the local list a loop builds: the unique name X with `X.append(...)` in the loop body"""
+    import ast
+    names = {n.func.value.id for n in ast.walk(st) if isinstance(n, ast.Call) and isinstance(n.func, ast.Attribute)
+             and n.func.attr == "append" and isinstance(n.func.value, ast.Name)}
+    if len(names) != 1:
+        raise EngineLimit("loop does not append to exactly one local list")
+    return names.pop()
+
+
+def loop_assigned(st):
+    """names (re)bound by the loop: its targets and every plain assignment / nested loop target in its body"""
+    import ast
+    out = {n.id for n in ast.walk(st.target) if isinstance(n, ast.Name)} if hasattr(st, "target") else set()
+    for n in ast.walk(st):
+        if isinstance(n, ast.Assign):
+            out |= {t.id for t in n.targets if isinstance(t, ast.Name)}
+            out |= {e.id for t in n.targets if isinstance(t, (ast.Tuple, ast.List)) for e in t.elts if isinstance(e, ast.Name)}
+        elif isinstance(n, ast.For):
+            out |= {x.id for x in ast.walk(n.target) if isinstance(x, ast.Name)}
+    return out
 
 
 def _target_read_after(fi, loop):
@@ -365,7 +401,11 @@ def verify_contract(repo, c, variant, policy=None, path_timeout_ms=2000, max_pat
         for label, t in post:
             ctx.oblige(f"{c.qualname}:post:{label}", t, kind="post", info=tagsof(label))
         for label, t in c.frame(I, S):
-            ctx.oblige(f"{c.qualname}:frame:{label}", t, kind="frame", info=tagsof("frame:" + label))
+            inf = tagsof("frame:" + label)
+            if c.qualname.startswith("nasim.envs."):
+                # "this call leaves its inputs / the environment alone" is part of C13 for everything a step can reach
+                inf["tags"] = sorted(set(inf["tags"]) | {"C13"})
+            ctx.oblige(f"{c.qualname}:frame:{label}", t, kind="frame", info=inf)
         emit_heap_frames(c, I, S, ctx, tagsof)
         # reachability cover: this normal-exit path is feasible
         return "return"
